@@ -217,3 +217,33 @@ def walk(node):
 
 def leaves_of(node):
     return [n for n in walk(node) if n['kind'] == 'leaf']
+
+
+def same_structure(node, tree):
+    """recorded build node vs a held tree dict: same shape, split directions and thresholds (bitwise)"""
+    if node['kind'] == 'leaf' or tree['type'] == 'leaf':
+        return node['kind'] == 'leaf' and tree['type'] == 'leaf' and node['kept'] == _as_list(tree['train_indices'])
+    if not torch.equal(node['direction'].cpu(), tree['split_direction'].detach().cpu()):
+        return False
+    if float(node['threshold']) != float(tree['split_point']):
+        return False
+    l, r = node['children']
+    return same_structure(l, tree['left']) and same_structure(r, tree['right'])
+
+
+def match_build(rec, tree):
+    """the recorded build that the held tree is (a copy of): with tree iterations each tree is built 1 + n_tree_iters times and
+    the best build is deep-copied.  Returns the LAST matching recorded root (None when there is none)."""
+    hit = None
+    for root in rec.trees:
+        if same_structure(root, tree):
+            hit = root
+    return hit
+
+
+def leaf_pairs(node, tree):
+    """(recorded leaf node, held leaf dict) pairs, by position"""
+    if node['kind'] == 'leaf':
+        return [(node, tree)]
+    l, r = node['children']
+    return leaf_pairs(l, tree['left']) + leaf_pairs(r, tree['right'])
